@@ -27,3 +27,20 @@ func TestMalformedRangeIs200(t *testing.T) {
 		t.Errorf("bytes=11- on an 11 byte object: status %d, want 416", r.Status)
 	}
 }
+
+// A directory object (key ending in "/") has no bytes. A range request on it was evaluated against the size of the
+// directory inode and then forced to length 0: 206 with "Content-Range: bytes 0--1/0".
+func TestRangeOnDirectoryObject(t *testing.T) {
+	g := gwtest.Start(t, gwtest.Options{})
+	g.MustStatus(g.Put(g.RootC, "/bkt", nil, nil), 200, "create bucket")
+	g.MustStatus(g.Put(g.RootC, "/bkt/dir/", nil, nil), 200, "put directory object")
+	r := g.Get(g.RootC, "/bkt/dir/", map[string]string{"Range": "bytes=0-10"})
+	// the same answer as for an empty regular object: the first position lies beyond the end
+	if r.Status != 416 {
+		t.Errorf("bytes=0-10 on a directory object: status %d, Content-Range %q, Content-Length %q, %d body bytes; want 416",
+			r.Status, r.Header.Get("Content-Range"), r.Header.Get("Content-Length"), len(r.Body))
+	}
+	if r := g.Get(g.RootC, "/bkt/dir/", nil); r.Status != 200 || len(r.Body) != 0 {
+		t.Errorf("plain GET of a directory object: %d with %d bytes", r.Status, len(r.Body))
+	}
+}
